@@ -256,7 +256,7 @@ class BodyInfo:
 
 class Ctx:
     """one activation of a body"""
-    __slots__ = ("body", "info", "fid", "subst", "gargs", "depth", "returns", "stack")
+    __slots__ = ("body", "info", "fid", "subst", "gargs", "depth", "returns", "stack", "enter_n")
 
     def __init__(self, body, info, fid, subst, gargs, depth, stack):
         self.body = body
@@ -1428,6 +1428,7 @@ class Interp:
         info = self.info(body)
         subst = prog.body_subst(body, gargs)
         ctx = Ctx(body, info, fid, subst, gargs, depth, stack)
+        ctx.enter_n = self.nsym
         st = st.copy()
         for i in range(body["arg_count"]):
             v = args[i] if i < len(args) else TopV(prog.ty(body["locals"][i + 1]["ty"], subst))
